@@ -30,7 +30,7 @@ W = "Constraint"
 
 def plan(tier, seed):
     return [{"shard": i, "nshards": NSHARDS, "n_random": 1500 if tier == "quick" else 30000,
-             "n_arith": 600 if tier == "quick" else 6000} for i in range(NSHARDS)]
+             "n_arith": 600 if tier == "quick" else 6000, "n_case": 5000 if tier == "quick" else 10 ** 9} for i in range(NSHARDS)]
 
 
 def expand(t):
@@ -82,6 +82,13 @@ def cases(desc):
         idx += 1
         if idx % n == i:
             yield "enum-depth<=2", t
+    # the same enumeration over three names two of which differ only in letter case (distinct names!)
+    cc = formulas.formulas(2, ("Cache", "cache", "Log"))
+    if len(cc) > desc.get("n_case", 10 ** 9):
+        cc = rand.rng(seed, "c18cc").sample(cc, desc["n_case"])
+    for k, t in enumerate(cc):
+        if k % n == i:
+            yield "enum-case-colliding-names", t
     if i == 0:
         for name, (mk, kind) in formulas.SIMPLE_FORMS.items():
             for a in "ABC":
